@@ -264,7 +264,7 @@ func URIParseCmp(rawURI1 []byte, rawURI2 []byte, flags URICmpFlags,
 		return false, err, 1
 	}
 	if r2 != nil {
-		*r2 = uri1
+		*r2 = uri2
 	}
 	return URICmp(&uri1, rawURI1, &uri2, rawURI2, flags), NoURIErr, 0
 }
